@@ -153,13 +153,17 @@ func (c *mockChain) StateAt(root, etxRoot common.Hash, quaiStateSize *big.Int) (
 func (c *mockChain) SubscribeChainHeadEvent(ch chan<- core.ChainHeadEvent) event.Subscription {
 	return c.feed.Subscribe(ch)
 }
-func (c *mockChain) IsGenesisHash(hash common.Hash) bool                                  { return false }
-func (c *mockChain) CheckIfEtxIsEligible(hash common.Hash, location common.Location) bool { return true }
-func (c *mockChain) Engine(header *types.WorkObjectHeader) consensus.Engine               { return nil }
-func (c *mockChain) GetHeaderOrCandidateByHash(h common.Hash) *types.WorkObject           { return c.GetBlock(h, 0) }
-func (c *mockChain) NodeCtx() int                                                         { return common.ZONE_CTX }
-func (c *mockChain) GetHeaderByHash(h common.Hash) *types.WorkObject                      { return c.GetBlock(h, 0) }
-func (c *mockChain) GetBlockByHash(h common.Hash) *types.WorkObject                       { return c.GetBlock(h, 0) }
+func (c *mockChain) IsGenesisHash(hash common.Hash) bool { return false }
+func (c *mockChain) CheckIfEtxIsEligible(hash common.Hash, location common.Location) bool {
+	return true
+}
+func (c *mockChain) Engine(header *types.WorkObjectHeader) consensus.Engine { return nil }
+func (c *mockChain) GetHeaderOrCandidateByHash(h common.Hash) *types.WorkObject {
+	return c.GetBlock(h, 0)
+}
+func (c *mockChain) NodeCtx() int                                    { return common.ZONE_CTX }
+func (c *mockChain) GetHeaderByHash(h common.Hash) *types.WorkObject { return c.GetBlock(h, 0) }
+func (c *mockChain) GetBlockByHash(h common.Hash) *types.WorkObject  { return c.GetBlock(h, 0) }
 func (c *mockChain) GetMaxTxInWorkShare() uint64 {
 	c.runs.Add(1)
 	return 1 << 20
